@@ -399,3 +399,35 @@ Definition S_writers_refuted_recovery : Prop :=
   exists n sched, let s := wrun false sched (winit n) in all_done s /\ (recovered s < w_log s)%nat.
 Definition S_writers_refuted_view : Prop :=
   exists n sched, let s := wrun false sched (winit n) in all_done s /\ (w_view s < w_log s)%nat.
+
+(** * Joining a fetched multi-entry log (Load from disk, LoadFromSnapshot) *)
+
+(** [m] is closed under [next] (inside the universe every link target exists, so this
+    says: the ancestry of every member is in [m]) *)
+Definition next_closed (m : list entry) : Prop :=
+  forall e c, In e m -> In c (enext e) -> In c (hashes m).
+
+(** Joining the log built from a bag [es] of fetched entries (what [NewFromEntryHash] /
+    [NewFromJSON] hand to [Join]) into an ancestry-closed log [l], when [es] together with
+    [l] is ancestry-closed (the fetcher stops only at entries [l] already holds): the
+    result holds exactly the union, is well-formed and ancestry-closed again. *)
+Definition S_join_multi : Prop :=
+  forall U l es acc,
+    WF U -> log_ok U l -> next_closed (lents l) ->
+    incl es U -> NoDup (hashes es) -> next_closed (es ++ lents l) ->
+    (forall e, In e es -> elog e = lid l /\ acc e = true) ->
+    exists l',
+      join l (log_of_entries (lid l) es) (-1) acc = Ok l' /\
+      log_ok U l' /\ lid l' = lid l /\
+      same_set (lents l') (lents l ++ es) /\ next_closed (lents l').
+
+(** Reloading a saved log into a fresh store reproduces listing and heads:
+    the snapshot and load-from-disk routes of C01 / C05 / C13. *)
+Definition S_reload_same_state : Prop :=
+  forall U l acc,
+    WF U -> log_ok U l -> next_closed (lents l) ->
+    (forall e, In e (lents l) -> acc e = true) ->
+    exists l',
+      join (empty_log (lid l)) (log_of_entries (lid l) (lents l)) (-1) acc = Ok l' /\
+      log_ok U l' /\ same_set (lents l') (lents l) /\
+      values l' = values l /\ heads_sorted l' = heads_sorted l.
